@@ -41,18 +41,21 @@ func listenerReach(c *Ctx, rule string) (map[*ssa.Function]bool, *core.CallGraph
 // storageOrigin: functions whose wrapper-unseal input comes from storage
 // (they invoke Storage.Load themselves, or are only called by such functions).
 func storageOrigin(cg *core.CallGraph, fn *ssa.Function) bool {
-	direct := func(f *ssa.Function) bool {
-		return cg.Direct[f][core.EffLoad] || cg.Direct[f][core.EffLoadBy]
-	}
-	if direct(fn) {
+	return storageOriginDepth(cg, fn, 0)
+}
+
+// storageOriginDepth: fn loads from storage itself, or every caller (up to
+// three levels of helpers) does: the blob it unseals was read back, not received.
+func storageOriginDepth(cg *core.CallGraph, fn *ssa.Function, depth int) bool {
+	if cg.Direct[fn][core.EffLoad] || cg.Direct[fn][core.EffLoadBy] {
 		return true
 	}
 	callers := cg.Callers[fn]
-	if len(callers) == 0 {
+	if len(callers) == 0 || depth >= 3 {
 		return false
 	}
 	for _, cl := range callers {
-		if !direct(cl) {
+		if cl == fn || !storageOriginDepth(cg, cl, depth+1) {
 			return false
 		}
 	}
@@ -156,8 +159,9 @@ func c14(c *Ctx) {
 			}
 			okAll := true
 			var inst []string
+			roots := blobRoots(fn, core.Strip(blob))
 			for f, n := range needs {
-				g := core.LenAtLeast("blob."+f, func(pp core.Path) bool { return pp.Root == core.Strip(blob) && pp.HasFields(f) }, n)
+				g := core.LenAtLeast("blob."+f, func(pp core.Path) bool { return roots[pp.Root] && pp.HasFields(f) }, n)
 				res := core.CutReach(p, fn, g, call.Block())
 				if res.Reachable || len(res.Instances) == 0 {
 					okAll = false
